@@ -25,8 +25,8 @@ ASSUMPTIONS = [
     "monotonicity law evaluated on trees without negated rows (a negated row is meant to be dropped under cant_delete)",
     "juniper 'inactive:' rows are not generated",
 ]
-FLOORS = {"quick": {"filters_compared": 3000, "strict_raises_agreed": 300, "strict_passes_agreed": 100, "monotone_checked": 1000, "idempotent_checked": 3000, "explicit_negated_rule_cases": 400, "production_merges_checked": 1500, "diff_texts_filtered": 600, "ignore_rule_filters": 300},
-          "thorough": {"filters_compared": 100000, "strict_raises_agreed": 10000, "strict_passes_agreed": 3000, "monotone_checked": 30000, "idempotent_checked": 100000, "explicit_negated_rule_cases": 12000, "production_merges_checked": 50000, "diff_texts_filtered": 20000, "ignore_rule_filters": 10000}}
+FLOORS = {"quick": {"filters_compared": 3000, "strict_raises_agreed": 300, "strict_passes_agreed": 100, "monotone_checked": 1000, "idempotent_checked": 3000, "explicit_negated_rule_cases": 400, "production_merges_checked": 1500, "diff_texts_filtered": 600, "ignore_rule_filters": 300, "slash_regex_filters": 300},
+          "thorough": {"filters_compared": 100000, "strict_raises_agreed": 10000, "strict_passes_agreed": 3000, "monotone_checked": 30000, "idempotent_checked": 100000, "explicit_negated_rule_cases": 12000, "production_merges_checked": 50000, "diff_texts_filtered": 20000, "ignore_rule_filters": 10000, "slash_regex_filters": 5000}}
 VENDORS = ["huawei", "cisco", "pc", "routeros", "juniper", "arista"]
 KNOWN_WINNER = "C06/children-rules-lost-when-global-or-negated-match-outranks-local"
 KNOWN_GLOBAL_MERGE = "C06/children-rules-lost-when-same-row-is-global-in-another-acl"
@@ -100,6 +100,22 @@ def add_negpairs(rng, level, prefix, count):
         count[0] += 1
 
 
+def add_shared_child_flags(rng, level, U, prefix):
+    """a generic rule (higher prio) and a specific rule for key k1 both match the k1 block; each carries the same child rule with another
+    %cant_delete flag: the united flags hold for the k1 block only, other blocks see the generic rule's flag alone"""
+    cands = [ur for ur in U if ur.children and ur.pat.split()[-1] == "*" and not ur.glob and not ur.pat.startswith(prefix + " ")
+             and any(not c.children and c.pat != "~" for c in ur.children)]
+    if not cands:
+        return False
+    ur = rng.choice(cands)
+    c = rng.choice([c for c in ur.children if not c.children and c.pat != "~"])
+    words = ur.pat.split()
+    generic = A.AclRule(ur.pat, children=[A.AclRule(c.pat, cant_delete=[True])], prio=1)
+    specific = A.AclRule(" ".join(words[:-1] + ["k1"]), children=[A.AclRule(c.pat, cant_delete=[False])])
+    level[0:0] = [generic, specific]
+    return True
+
+
 def make_case(seed, negpair=False):
     rng = random.Random(seed)
     vname = VENDORS[rng.randrange(len(VENDORS))]
@@ -120,6 +136,8 @@ def make_case(seed, negpair=False):
         cnt = [0]
         add_negpairs(rng, a, prefix, cnt)
         add_negpairs(rng, b, prefix, cnt)
+        if rng.random() < 0.6:
+            add_shared_child_flags(rng, a, U, prefix)
         t = add_negated(rng, t, prefix, 0.35)
         neg = True
     return vname, prefix, U, t, a, b, neg
@@ -167,6 +185,15 @@ def check_case(seed, acc, negpair=False):
             acc.violation("C06/exception/%s" % type(e).__name__, "apply_acl raised on an in-domain input", dict(w, which=name, error=repr(e)[:300]))
             return
         res[name] = got
+        # filtering is a function of (tree, ACL text): the same call again gives the same answer
+        try:
+            got_again = plain(real_filter(text, vname, t))
+        except Exception as e:
+            got_again = "EXC %s" % type(e).__name__
+        if got_again != got:
+            acc.violation("C06/repeated-filter-differs", "filtering the same tree by the same ACL a second time in one process gives another result",
+                          dict(w, which=name, first=got, second=got_again))
+            continue
         unc = []
         exp = ref_filter(level, pt, prefix, "property", unc)
         allrows = sum(1 for _ in paths(t))
@@ -356,7 +383,50 @@ def check_ignore_case(seed, acc):
                       dict(w, expected=exp, got=got))
 
 
+def check_slash_regex_case(seed, acc):
+    """ACL rules in the `word ~/regex/` and `*/regex/` forms whose regular expression contains slashes (interface names)"""
+    from annet.annlib.rbparser.acl import compile_acl_text
+    from annet.annlib.patching import apply_acl
+    rng = random.Random(seed)
+    vname = VENDORS[rng.randrange(len(VENDORS))]
+    kinds = ["ge", "xe", "et"]
+    good = rng.choice(kinds)
+    form = rng.choice(["tilde", "star", "tilde-anchored"])
+    if form == "tilde":
+        rule = r"iface ~/%s-\d+/\d+/\d+/" % good
+    elif form == "tilde-anchored":
+        rule = r"iface ~/%s-\d+/\d+/\d+$/" % good
+    else:
+        rule = r"iface */%s-\d+/\d+/\d+/" % good
+    text = rule + "\n    ~ %global\nother *\n"
+    tree, exp = [], []
+    for i in range(rng.randint(2, 6)):
+        k = rng.choice(kinds)
+        row = "iface %s-%d/%d/%d" % (k, rng.randint(0, 3), rng.randint(0, 9), i)
+        if form == "tilde" and rng.random() < 0.3:
+            row += " extra"
+        ch = [["mtu %d" % rng.randint(1, 9), []], ["deep", [["er 1", []]]]][: rng.randint(0, 2)]
+        tree.append([row, ch])
+        ok = k == good and not (form in ("tilde-anchored", "star") and row.endswith(" extra"))
+        if ok:
+            exp.append([row, ch])
+    tree.append(["other 1", []])
+    exp.append(["other 1", []])
+    w = {"seed": seed, "slash_regex": True, "vendor": vname, "acl_A": text, "tree": tree}
+    try:
+        got = plain(apply_acl(unplain(tree), compile_acl_text(text, vname), fatal_acl=False))
+    except Exception as e:
+        acc.violation("C06/exception/%s" % type(e).__name__, "compiling / applying an ACL whose regular expression contains slashes raised", dict(w, error=repr(e)[:300]))
+        return
+    acc.count("slash_regex_filters")
+    acc.case(["slash", vname, text, tree], nontrivial=(exp != tree))
+    if got != exp:
+        acc.violation("C06/filter-differs", "apply_acl does not return exactly the covered lines", dict(w, which="A", expected=exp, got=got))
+
+
 def run_shard(spec, acc):
+    if spec["mode"] == "replay" and spec["witness"].get("slash_regex"):
+        return check_slash_regex_case(spec["witness"]["seed"], acc)
     if spec["mode"] == "replay" and spec["witness"].get("ignore_case"):
         return check_ignore_case(spec["witness"]["seed"], acc)
     if spec["mode"] == "replay":
@@ -374,3 +444,5 @@ def run_shard(spec, acc):
             check_case(rng.randrange(1 << 48), acc, negpair=True)
         if j % 5 == 1:
             check_ignore_case(rng.randrange(1 << 48), acc)
+        if j % 10 == 3:
+            check_slash_regex_case(rng.randrange(1 << 48), acc)
